@@ -70,7 +70,10 @@ def run(stream, fault=None, cut=None, timeout=0.3):
             return t, proto
         loop.create_connection = create_connection
         req = GeminiRequest.from_line("gemini://front.example/page?x=1")
-        resp = await h.handle(req)
+        try:
+            resp = await h.handle(req)
+        except Exception as e:  # noqa: BLE001  (the protocol would answer 40: not a relay and not a 43)
+            return b"<handler raised " + type(e).__name__.encode() + b">", conns
         header, body = GeminiServerProtocol._encode_response(resp)
         return header + body, conns
     return asyncio.run(go())
